@@ -249,3 +249,12 @@ func (l *SignedLog) Serve(rpath string, size int) ([]byte, error) {
 	}
 	return nil, os.ErrNotExist
 }
+
+// SignText signs an arbitrary note text with the real key (a misbehaving operator).
+func SignText(text string) []byte {
+	b, err := note.Sign(&note.Note{Text: text}, TheKeys().S)
+	if err != nil {
+		panic(err)
+	}
+	return b
+}
